@@ -1,5 +1,5 @@
 #!/venv/bin/python
-"""tools/seed.py <agent worktree> <property id> [name] [--other ID,ID]
+"""tools/seed.py <agent worktree> <property id> [name] [--other ID,ID] [--sub DIR] [--quick-only]
 
 Confirms a seeded change delivered by a sub-agent (patch.diff, demo.py, notes.json under
 <worktree>/seed/) in a FRESH scratch worktree of /repo, runs the property's check against it,
@@ -28,6 +28,9 @@ def main():
     if '--other' in sys.argv:
         others = sys.argv[sys.argv.index('--other') + 1].split(',')
     seed = os.path.join(src, 'seed')
+    if '--sub' in sys.argv:
+        seed = os.path.join(seed, sys.argv[sys.argv.index('--sub') + 1])
+    quick_only = '--quick-only' in sys.argv
     patch = os.path.join(seed, 'patch.diff')
     demo = os.path.join(seed, 'demo.py')
     notes = json.load(open(os.path.join(seed, 'notes.json'))) if os.path.exists(os.path.join(seed, 'notes.json')) else {}
@@ -57,7 +60,7 @@ def main():
         sigs = [l.strip() for l in oc.split('\n') if l.strip().startswith('signature=')]
         ran.append('./check %s --tier quick against the changed tree: exit %d, %d violation signatures (%.0fs)' % (pid, rcc, len(sigs), time.time() - t))
         detected = {pid: {'tier': 'quick', 'exit': rcc, 'first_signature': sigs[0][:200] if sigs else None}}
-        if rcc == 0:
+        if rcc == 0 and not quick_only:
             t = time.time()
             rcc2, oc2 = sh('./check %s --tier thorough' % pid, cwd='/verif', env={'VERIF_REPO': wt, 'VERIF_NO_EVIDENCE': '1'}, timeout=7200)
             sigs2 = [l.strip() for l in oc2.split('\n') if l.strip().startswith('signature=')]
